@@ -23,6 +23,7 @@ type c16Harness struct {
 	w2     *World
 	events []*Event
 	cmpAt  [3]int // digest lines already compared
+	setupVio *Violation
 }
 
 func crashPlanFor(seed uint64) func(w *World, phase string, idx int) bool {
@@ -53,7 +54,10 @@ func (h *c16Harness) Start(cfg Config) {
 	h.w2.CrashPlan = crashPlanFor(cfg.Seed)
 	// set-up must already agree
 	if a, b, c := h.w0.App.LastCommitID().Hash, h.w1.App.LastCommitID().Hash, h.w2.App.LastCommitID().Hash; string(a) != string(b) || string(a) != string(c) {
-		panic(fmt.Sprintf("replicas disagree after set-up: %X %X %X", a, b, c))
+		// the set-up is itself a sequence of blocks and transactions executed from the same genesis on three instances
+		// (the harness' own determinism is established separately by the self-test): report at the first step
+		h.setupVio = &Violation{Property: "C16", OracleID: "c16.replica", Signature: "divergence:set-up",
+			Detail: fmt.Sprintf("three in-process instances executed the same set-up blocks and transactions from the same genesis and committed different app hashes: %X %X %X", a, b, c)}
 	}
 }
 
@@ -66,6 +70,11 @@ func cloneEvent(ev *Event) *Event {
 }
 
 func (h *c16Harness) Step(ev *Event, step int) (Result, *Violation) {
+	if h.setupVio != nil {
+		v := *h.setupVio
+		v.Step = step
+		return Result{}, &v
+	}
 	h.events = append(h.events, ev)
 	debugGasDiff(h.w0, h.w2, ev)
 	debugVolatileDiff(h.w0, h.w2)
